@@ -387,11 +387,13 @@ def _install_wrappers(ctx):
                     pairs = None
             if pairs is None:
                 _s['n']['contract._mix_by_%s_pairs.unrecognised_call' % kind] += 1
+                _s['n']['contract.unrecognised_call_from.' + _caller_name()] += 1
                 return orig(*args, **kw)
             result = orig(pairs)
             caller = _caller_name()
             if not isinstance(result, Formula):
                 _s['n']['contract._mix_by_%s_pairs.unrecognised_call' % kind] += 1
+                _s['n']['contract.unrecognised_call_from.' + caller] += 1
                 return result
             try:
                 msg = _post(kind, pairs, result, caller)
@@ -404,15 +406,13 @@ def _install_wrappers(ctx):
         wrapper.__wrapped__ = orig
         return wrapper
 
-    installed = []
-    for kind, callers in (('weight', ('convert_by_weight', 'convert_by_absmass', 'mix_by_weight')),
-                          ('volume', ('convert_by_volume', 'convert_by_layer', 'mix_by_volume'))):
+    _s['mixers'] = {}
+    for kind, callers in MIXER_CALLERS:
         name = '_mix_by_%s_pairs' % kind
         orig = private(ctx, formulas, name, waived=['contract.caller.' + c for c in callers])
         if orig is not None and callable(orig):
             setattr(formulas, name, wrap(kind, orig))
-            installed.append(kind)
-    return installed
+            _s['mixers'][kind] = orig
 
 
 def _drain(ctx, problems, label):
@@ -422,6 +422,9 @@ def _drain(ctx, problems, label):
         del fails[:]
 
 
+# which entry points reach which private pair mixer on the pinned tree
+MIXER_CALLERS = (('weight', ('convert_by_weight', 'convert_by_absmass', 'mix_by_weight')),
+                 ('volume', ('convert_by_volume', 'convert_by_layer', 'mix_by_volume')))
 ACTIONS = ('convert_by_weight', 'convert_by_volume', 'convert_by_layer', 'convert_by_absmass', 'convert_mixture')
 CALLERS = ('convert_by_weight', 'convert_by_volume', 'convert_by_layer', 'convert_by_absmass',
            'mix_by_weight', 'mix_by_volume')
@@ -446,8 +449,10 @@ def setup(ctx):
     _s['scaled'] = scaled
     if not scaled:
         ctx.count('setup.scaled-table-unavailable')
-        ctx.note('the masses of a private table could not be changed through the private attribute behind .mass '
-                 '(refactored source); the cases of the scaled table run on a private table with the tabulated masses')
+        if not ctx.shard:
+            ctx.note('the masses of a private table could not be changed through the private attribute behind '
+                     '.mass (refactored source); the cases of the scaled table run on a private table with the '
+                     'tabulated masses')
     _s['tables'] = {'public': pt.elements, 'scaled': T}
     _s['symbol'] = {el.number: el.symbol for el in pt.elements}
     _s['known'] = sorted(el.number for el in pt.elements
@@ -479,6 +484,13 @@ def setup(ctx):
     # one that was renamed / moved has its reach counter and its "called the mixer from here" counter waived
     watch_nested(ctx, reach, getattr(formulas, 'formula_grammar', None), ACTIONS,
                  extra_waived={a: ['contract.caller.' + a] for a in ACTIONS if a in CALLERS})
+    _s['mixers_watched'] = []
+    for kind, orig in _s['mixers'].items():    # entry counters on the private mixers: evidence only, no requirement
+        try:
+            reach.watch(orig, '_mix_by_%s_pairs' % kind)
+            _s['mixers_watched'].append(kind)
+        except Exception:
+            pass
     reach.start()
     _s['reach'] = reach
     if not ctx.replay:
@@ -505,8 +517,16 @@ def setup(ctx):
 def finish(ctx):
     _s['reach'].stop()
     _s['reach'].export(ctx)
-    for k, v in _s['n'].items():
+    from ..gen.formulas import waive_unjudged
+    for k, v in list(_s['n'].items()):
         ctx.count(k, v)
+    from ..gen.formulas import waive_dead
+    for kind, callers in MIXER_CALLERS:
+        if kind in _s['mixers_watched']:
+            waive_dead(ctx, '_mix_by_%s_pairs' % kind, ['contract.caller.' + c for c in callers], 'cases.mixture')
+    for c in CALLERS:
+        waive_unjudged(ctx, 'contract.caller.' + c, _s['n']['contract.caller.' + c],
+                       _s['n']['contract.unrecognised_call_from.' + c], 'the private pair mixer reached from ' + c)
 
 
 # --------------------------------------------------------------------------
